@@ -1,5 +1,6 @@
 /- T1 facts about attempt.go (C20): the shape the `BB.Attempt` model and the stamp theorems rely on. -/
 import BB.Gen.Skel
+import BB.Gen.Consts
 
 namespace BB.Conform.Attempt
 open BB.Skel BB.Gen.Skel
@@ -42,5 +43,8 @@ theorem stamp_guard_before_every_send :
 theorem count_checked_every_iteration :
     dominates g_LinearAttempt_0 (is K.cond S.c_i_lt_count) (is K.recv S.ticker_C) = true ∧
     between g_LinearAttempt_0 (is K.send S.c) (is K.recv S.ticker_C) (is K.cond S.c_i_lt_count) = true := by decide
+
+/-- the channel has exactly one buffer slot (`BB.Attempt.St.buf : Option Nat`) -/
+theorem channel_has_one_slot : BB.Gen.Consts.chancap_LinearAttempt_0 = 1 := by decide
 
 end BB.Conform.Attempt
